@@ -68,6 +68,12 @@ def _run_chunk(chunk, tier, seed):
             for p2 in ps:
                 for z in ps:
                     _do(acc, {"t": "single", "edge": "odo", "kind": kind, "p1": p1, "p2": p2, "z": z, "tier": tier, "seed": seed})
+            # residuals of thousands of units
+            d = G.DIM[kind]
+            far = [2500.0, -1800.0, 900.0][:d]
+            for q in ps[: min(len(ps), 4)]:
+                _do(acc, {"t": "single", "edge": "odo", "kind": kind, "p1": p1, "p2": far + list(q[d:]), "z": q, "tier": tier, "seed": seed})
+                _do(acc, {"t": "single", "edge": "odo", "kind": kind, "p1": p1, "p2": q, "z": [-x for x in far] + list(q[d:]), "tier": tier, "seed": seed})
         else:
             p1 = A.poses(kind, tier, seed)[i]
             pk = I.POINT_OF[kind]
@@ -284,7 +290,7 @@ def _eval_inner(case):
         if not msgs:
             ispd = [[float(2 + i if i == j else (1 if abs(i - j) == 1 else 0)) for j in range(n)] for i in range(n)]
             indef = [[(-1.0) ** i * (i + 1.0) if i == j else 0.5 for j in range(n)] for i in range(n)]
-            for name, om, dt in (("int", ispd, int), ("float32", ispd, np.float32), ("indefinite", indef, float), ("negdef", [[-x for x in r_] for r_ in ispd], float)):
+            for name, om, dt in (("int", ispd, int), ("float32", ispd, np.float32), ("indefinite", indef, float), ("negdef", [[-x for x in r_] for r_ in ispd], float), ("all-zero", [[0.0] * n for _ in range(n)], float)):
                 classes.append("omega:" + name)
                 e.information = np.array(om, dtype=dt)
                 c2 = float(e.calc_chi2())
